@@ -44,7 +44,9 @@ def write(system, outfile, skip_empty=True, overwrite=None, add_book=None, **kwa
     if not confirm_overwrite(outfile, overwrite=overwrite):
         return False
 
-    writer = pd.ExcelWriter(outfile, engine='xlsxwriter')
+    # keep strings such as the `Alter.method` values '=', '+', '-' as strings rather than spreadsheet formulas
+    writer = pd.ExcelWriter(outfile, engine='xlsxwriter',
+                            engine_kwargs={'options': {'strings_to_formulas': False}})
     writer = _write_system(system, writer, skip_empty)
     writer = _add_book(system, writer, add_book)
 
